@@ -14,8 +14,9 @@ pub struct Trace {
     pub str_to_num: Vec<String>,
     /// "following-from-attr-or-ns", "preceding-from-attr-or-ns": a step on
     /// that axis was evaluated with an attribute or namespace node as context;
-    /// "mixed-ns-order": the document order of a node-set mixing namespace
-    /// nodes and other nodes was used (first node / positional filter)
+    /// "ns-order-used": the document order of a node-set with two or more
+    /// nodes including a namespace node was used (first node / positional
+    /// filter of a filter expression)
     pub events: Vec<&'static str>,
 }
 
@@ -38,16 +39,15 @@ pub fn is_on() -> bool {
     TRACE.with(|t| t.borrow().is_some())
 }
 
-/// Records "mixed-ns-order" when the *order* of `set` is about to be used
-/// (first node, positional filter) and it contains namespace nodes together
-/// with other nodes.
+/// Records "ns-order-used" when the *order* of `set` is about to be used
+/// (first node, positional filter) and it has at least two nodes, at least
+/// one of them a namespace node.
 pub(crate) fn note_order_use(tree: &crate::tree::XTree, set: &[usize]) {
     if set.len() < 2 || !is_on() {
         return;
     }
-    let ns = set.iter().filter(|&&n| tree.nodes[n].kind == crate::tree::Kind::Namespace).count();
-    if ns > 0 && ns < set.len() {
-        note_event("mixed-ns-order");
+    if set.iter().any(|&n| tree.nodes[n].kind == crate::tree::Kind::Namespace) {
+        note_event("ns-order-used");
     }
 }
 
